@@ -16,6 +16,10 @@ from ural.quote import unquote
 
 LANG_QUERY_KEYS = ("gl", "hl")
 
+# NOTE: only ascii letters make a code, but str.upper() finds one in other
+# letters too ("\u0131t".upper(), with a dotless i, is "IT")
+LANG_SUBDOMAINS = frozenset(code.lower() for code in ISO_3166_1_COUNTRIES_ALPHA_2)
+
 # NOTE: every byte but the ascii letters
 EVERYTHING_BUT_LETTERS = bytes(
     bytearray(i for i in range(256) if not (65 <= i <= 90 or 97 <= i <= 122))
@@ -49,12 +53,12 @@ def strip_lang_subdomain_from_hostname(hostname):
             lang, country = subdomain.split("-", 1)
             if len(lang) == 2 and len(country) == 2:
                 if (
-                    lang.upper() in ISO_3166_1_COUNTRIES_ALPHA_2
-                    and country.upper() in ISO_3166_1_COUNTRIES_ALPHA_2
+                    lang.lower() in LANG_SUBDOMAINS
+                    and country.lower() in LANG_SUBDOMAINS
                 ):
                     hostname = remaining_hostname
         elif len(subdomain) == 2:
-            if subdomain.upper() in ISO_3166_1_COUNTRIES_ALPHA_2:
+            if subdomain.lower() in LANG_SUBDOMAINS:
                 hostname = remaining_hostname
 
     return hostname
